@@ -132,6 +132,18 @@ def datagrams(rng, tier):
         out.append(("utf8", v.replace(b"OPTIONS", b"OPT\xc3IONS")))
         out.append(("longline", v.replace(b"tag=f", b"tag=" + b"f" * 5000)))
         out.append(("nohead", v.split(b"\r\n\r\n")[0] if b"\r\n\r\n" in v else v))
+    # the first characters beyond ASCII (U+007F..U+0100) at every place a character-class predicate looks at: header name, method,
+    # request URI user / host / parameter, Via parameter, unquoted display name, tag
+    for ch in ("\u007f", "\u0080", "\u0081", "\u00ff", "\u0100", "\u07ff", "\u0800"):
+        c = ch.encode("utf-8")
+        for m in (build(headers=base_headers(extra=[b"X" + c + b"Y: v"])), build(start=b"OPT" + c + b" sip:b@example.org SIP/2.0"), build(start=b"OPTIONS sip:b" + c + b"@example.org SIP/2.0"),
+                  build(start=b"OPTIONS sip:b@exa" + c + b"mple.org SIP/2.0"), build(start=b"OPTIONS sip:b@example.org;p" + c + b"=1 SIP/2.0"),
+                  build(start=b"OPTIONS sip:b@example.org;p=v" + c + b" SIP/2.0"), build(start=b"OPTIONS sip:b:pw" + c + b"@example.org SIP/2.0"),
+                  build(headers=[b"Via: SIP/2.0/UDP 10.9.9.9:5060;branch=z9hG4bKc02;x" + c + b"=1"] + base_headers()[1:]),
+                  build(headers=[base_headers()[0], b"From: Al" + c + b"ce <sip:a@example.org>;tag=f"] + base_headers()[2:]),
+                  build(headers=[base_headers()[0], b"From: <sip:a@example.org>;tag=f" + c] + base_headers()[2:]),
+                  build(headers=base_headers(cseq="1 OPT" + ch)) if False else build(headers=[x for x in base_headers() if not x.startswith(b"CSeq")] + [b"CSeq: 1 OPT" + c])):
+            out.append(("edge", m))
     for s in (b"", b"\r", b"\n", b"\r\n\r", b"\r\n\r\n\r\n", b":", b"a:b", b"\r\n:\r\n\r\n", b"X\r\n\r\n", b"X\r\n:\r\n\r\n", b" \r\n\r\n", b"SIP/2.0\r\n\r\n",
               b"SIP/2.0 999999999999999999999 x\r\n\r\n", b"SIP/2.0 99 x\r\n\r\n", b"OPTIONS  SIP/2.0\r\n\r\n", b"OPTIONS sip:%zz SIP/2.0\r\n\r\n",
               b"OPTIONS sip:[::1 SIP/2.0\r\n\r\n", b"OPTIONS sip:a@b:99999 SIP/2.0\r\n\r\n", b"OPTIONS sip:a SIP/9.9\r\n\r\n", b"\x00\x01\x00\x00\x21\x12\xa4\x42" + b"\x00" * 12,
@@ -250,6 +262,7 @@ def ep_cases(rng, tier):
 def net_cases(rng, tier, dgs):
     cases = []
     hostile = [d for (lab, d) in dgs if lab in ("cl", "cl2", "cl-first", "tiny", "mut", "lead", "utf8", "nul") and len(d) < 1400]
+    edge = [d for (lab, d) in dgs if lab == "edge"]
     # a message without any usable Via, unparsable From/To/CSeq, huge CSeq
     specials = [build(headers=[b"Via: garbage"] + base_headers()[1:]), build(headers=base_headers()[1:]), build(headers=base_headers(cseq="99999999999 OPTIONS")),
                 build(headers=[x for x in base_headers() if not x.startswith(b"From")] + [b"From: <"]), build(headers=base_headers(cseq="1 INVITE")),
@@ -262,6 +275,8 @@ def net_cases(rng, tier, dgs):
         pk = [rng.choice(hostile) for _ in range(10)] + [rng.choice(specials) for _ in range(3)]
         if g == 1:
             pk = specials[8:] + [rng.choice(hostile) for _ in range(4)]
+        if g in (2, 3):
+            pk = rng.sample(edge, 12) + [rng.choice(hostile) for _ in range(2)]
         if g == 0:
             pk = [d for (lab, d) in dgs if lab in ("cl", "cl2") and b"1844674407370955" in d][:12] + specials
         rng.shuffle(pk)
